@@ -222,3 +222,157 @@ def once_taken(ctx, rule):
         else:
             ctx.violation(rule, rule + "|not-taken", "the one-shot body's poll does not return the taken payload", where=where(takes[0]))
     ctx.floor(rule, n, 1, what="one-shot poll rows")
+
+
+def body_hint_tables(ctx, r1, r3):
+    """C12.R1 / R3: Body::size_hint and is_end_stream dispatch per body kind"""
+    e, pn = find_bodystream(ctx)
+    xadt, budget, inner, xpn = find_exactlen(ctx)
+    from . import multipart as MP
+    from . import chunker as CH
+    sadt, sroles, spn = MP.find_stream(ctx)
+    CR = CH.roles(ctx)
+    # the public Body struct: local struct with a field of the stream enum type
+    body = [a for a in ctx.facts.adts.values() if a["local"] and a["kind"] == "struct" and
+            any(f["ty"].startswith(e["path"]) for f in a["variants"][0]["fields"]) and "Proj" not in a["path"]]
+    body = [a for a in body if impl_fn(ctx, "http_body::Body", a["path"], "size_hint")]
+    if len(body) != 1:
+        ctx.violation(r1, r1 + "|body", "UNRECOGNISED: public Body type not found uniquely")
+        return
+    bp = body[0]["path"]
+    kinds = {}
+    for v in e["variants"]:
+        ty = v["fields"][0]["ty"] if v["fields"] else ""
+        if ty.startswith("std::option::Option<std::result::Result<D"):
+            kinds[v["name"]] = "once"
+        elif ty.startswith(xadt):
+            kinds[v["name"]] = "exactlen"
+        elif ty.startswith(sadt):
+            kinds[v["name"]] = "multipart"
+        elif ty.startswith(CR["reader"]):
+            kinds[v["name"]] = "chunker"
+    if set(kinds.values()) != {"once", "exactlen", "multipart", "chunker"}:
+        ctx.violation(r1, r1 + "|variants", "UNRECOGNISED body stream variants: %r" % kinds)
+        return
+    sh = impl_fn(ctx, "http_body::Body", bp, "size_hint")[0]
+    es = impl_fn(ctx, "http_body::Body", bp, "is_end_stream")[0]
+    S0 = ("field", ("deref", ("param", 1)), "0")
+    # --- size_hint
+    outs = [o for o in ctx.px(sh, inline=lambda c, d: c.get("res_path") not in (CR["size_hint"],), key="hint") if o.kind == "return"]
+    seen = set()
+    for o in outs:
+        var = o.cons.variant_of(S0)
+        k = kinds.get(var)
+        v = o.value
+        exact = v[2][0] if isinstance(v, tuple) and v[0] == "call" and v[1].endswith("SizeHint::with_exact") else None
+        pl = ("payload", S0, var, "0")
+        if k == "once":
+            pv = o.cons.variant_of(pl)
+            if pv == "Some" and o.cons.variant_of(("payload", pl, "Some", "0")) == "Ok":
+                d = ("payload", ("payload", pl, "Some", "0"), "Ok", "0")
+                rem = None
+                for ev in o.events:
+                    if ev["k"] == "call" and ev["callee"].get("path") == "bytes::Buf::remaining":
+                        a = ev["snap"][0] if ev["args"][0][0] == "ref" else ev["args"][0]
+                        if a == d:
+                            rem = ev["result"]
+                okk = exact is not None and rem is not None and (exact == rem or (isinstance(exact, tuple) and exact[0] == "payload" and rem in exact[1][2]) or repr(rem) in repr(exact))
+                seen.add("once-pending")
+                if okk:
+                    ctx.ok(r1, "one-shot with pending payload: exact remaining(payload)")
+                else:
+                    ctx.violation(r1, r1 + "|once-pending", "a one-shot body with a pending payload does not give the exact hint remaining(payload): %s" % short(v, 100))
+            else:
+                seen.add("once-other")
+                if exact != const(0):
+                    ctx.violation(r1, r1 + "|once-consumed", "a consumed / failed one-shot body gives %s, not exact 0" % short(v, 60))
+                else:
+                    ctx.ok(r1, "one-shot consumed/err: exact 0")
+        elif k == "exactlen":
+            seen.add(k)
+            want = ("field", pl, budget)
+            if exact != want:
+                ctx.violation(r1, r1 + "|exactlen", "the length-checked body's hint is %s, not its owed-bytes field" % short(v, 80))
+            else:
+                ctx.ok(r1, "length-checked stream: exact owed bytes")
+        elif k == "multipart":
+            seen.add(k)
+            okk = isinstance(exact, tuple) and ((exact[0] == "call" and exact[1].endswith("::%s" % sroles["remaining"])) or exact == ("field", pl, sroles["remaining"]))
+            if okk and exact[0] == "call":
+                # the accessor must return the owed-bytes field
+                acc = exact[1]
+                ao = [x for x in ctx.px(acc) if x.kind == "return"]
+                okk = len(ao) == 1 and ao[0].value == ("field", ("deref", ("param", 1)), sroles["remaining"])
+            if not okk:
+                ctx.violation(r1, r1 + "|multipart", "the multipart body's hint is %s, not its owed-bytes field" % short(v, 80))
+            else:
+                ctx.ok(r1, "multipart stream: exact owed bytes")
+        elif k == "chunker":
+            seen.add(k)
+            if not (isinstance(v, tuple) and v[0] == "call" and v[1] == CR["size_hint"]):
+                ctx.violation(r1, r1 + "|chunker", "the streaming body's hint does not come from the chunk reader: %s" % short(v, 80))
+            else:
+                ctx.ok(r1, "chunk reader: delegated")
+    ctx.floor(r1, len(seen), 5, what="size_hint rows (one-shot pending/consumed, length-checked, multipart, chunk reader)")
+    # --- is_end_stream
+    outs = [o for o in ctx.px(es, inline=lambda c, d: c.get("res_path") not in (CR["is_end_stream"],), key="end") if o.kind == "return"]
+    seen = set()
+    for o in outs:
+        var = o.cons.variant_of(S0)
+        k = kinds.get(var)
+        v = o.value
+        pl = ("payload", S0, var, "0")
+        if is_const(v) and v[1] == 0:
+            seen.add(k)
+            ctx.ok(r3, "%s: false (always allowed)" % k)
+            continue
+        if k == "once":
+            pv = o.cons.variant_of(pl)
+            okk = (is_const(v) and v[1] == 1 and pv == "None")
+            if not okk:
+                # value may be the is_none() result term
+                okk = isinstance(v, tuple) and pv is None
+            if okk:
+                ctx.ok(r3, "one-shot: true only when the payload was taken")
+            else:
+                ctx.violation(r3, r3 + "|once", "a one-shot body reports end-of-stream while its payload is still pending (%s, payload %s)" % (short(v, 40), pv))
+        elif k in ("exactlen", "multipart"):
+            fld = ("field", pl, budget) if k == "exactlen" else None
+            okk = False
+            if isinstance(v, tuple) and v[0] == "binop" and v[1] == "Eq" and v[3] == const(0):
+                lhs = v[2]
+                if k == "exactlen":
+                    okk = lhs == fld
+                else:
+                    okk = lhs == ("field", pl, sroles["remaining"]) or (isinstance(lhs, tuple) and lhs[0] == "call" and lhs[1].endswith("::%s" % sroles["remaining"]))
+            if okk:
+                ctx.ok(r3, "%s: true iff owed bytes == 0" % k)
+            else:
+                ctx.violation(r3, r3 + "|" + k, "the %s body's end-of-stream answer is %s, not `owed bytes == 0`" % (k, short(v, 80)))
+        elif k == "chunker":
+            if isinstance(v, tuple) and v[0] == "call" and v[1] == CR["is_end_stream"]:
+                ctx.ok(r3, "chunk reader: delegated")
+            else:
+                ctx.violation(r3, r3 + "|chunker", "the streaming body's end-of-stream answer does not come from the chunk reader")
+        seen.add(k)
+    ctx.floor(r3, len(seen), 4, what="is_end_stream rows per body kind")
+
+
+def body_constructors(ctx, rule):
+    """C12.R5: construction sites of the body stream enum"""
+    e, pn = find_bodystream(ctx)
+    sites = aggregates(ctx.facts, e["path"])
+    by = {}
+    for b, i, st in sites:
+        by.setdefault(st["rv"]["variant"], set()).add(b["name"])
+    n = 0
+    for var, fns in sorted(by.items()):
+        for fn in sorted(fns):
+            n += 1
+            f = ctx.facts.fns.get(fn, {})
+            ctx.ok(rule, "%s constructed in %s" % (var, fn))
+    # the enum and the Body's field are not public
+    vis = e.get("vis")
+    if vis and vis.startswith("Public"):
+        ctx.violation(rule, rule + "|public-enum", "the body stream enum is public: bodies can be constructed outside the crate")
+    ctx.floor(rule, n, 6, what="construction sites of the body stream enum")
